@@ -85,7 +85,13 @@ func (w *World) CheckIdentity(o *Obs, prop string) []Violation {
 		}
 		versions[c][obj] = append(versions[c][obj], where)
 	}
+	createdHolders := w.Created(o)
 	for _, h := range sdl.SortedKeys(o.Points) {
+		if !createdHolders[h] || w.replacedBeforeInstantiation(h) {
+			// a component the container never created: whatever its fields hold was put there
+			// by the application (hand-wired), not resolved by the container
+			continue
+		}
 		for _, f := range sdl.SortedKeys(o.Points[h]) {
 			for _, obj := range o.Points[h][f] {
 				if w.componentOf(obj) == h && obj != h {
@@ -617,6 +623,20 @@ func hasMultiCandidatePoint(out *Outcome) bool {
 	for _, rs := range out.Res {
 		for _, r := range rs {
 			if len(r.Cands) >= 2 {
+				return true
+			}
+		}
+	}
+	return false
+}
+
+// replacedBeforeInstantiation: a post-processor supplies another object instead of
+// instantiating / populating the registered one; the registered object's fields are then
+// never touched by the container.
+func (w *World) replacedBeforeInstantiation(id string) bool {
+	for _, pr := range w.P.Procs {
+		for _, r := range pr.Rules {
+			if r.Target == id && r.At == sdl.CbBeforeInst {
 				return true
 			}
 		}
